@@ -737,7 +737,7 @@ impl Property for C09 {
                 if k > 0 && (k == 1 || rng.chance(1, 2)) {
                     let b = contents[rng.below(contents.len())];
                     env.file_updates.push((at.min(out.len() - 1), "zr.tex".to_string(), b.as_bytes().to_vec()));
-                    damage.push(format!("file zr.tex replaced before line {}", at.min(out.len() - 1)));
+                    damage.push(format!("replace file zr.tex before line {}", at.min(out.len() - 1)));
                 }
                 at += 1 + rng.below(3);
             }
@@ -854,6 +854,7 @@ impl Property for C09 {
                 "file" => "file_missing_or_unreadable",
                 "terminal" => "terminal_exhausted_or_failing",
                 "write" => "disk_write_fails",
+                "replace" => "file_replaced_between_lines",
                 _ => "other",
             }));
         }
@@ -865,6 +866,7 @@ impl Property for C09 {
             "lines": case.lines,
             "files": case.env.files.iter().map(|(n, b)| (n.clone(), String::from_utf8_lossy(b).to_string())).collect::<Vec<_>>(),
             "terminal": case.env.terminal,
+            "file_updates": case.env.file_updates.iter().map(|(at, n, b)| (*at, n.clone(), String::from_utf8_lossy(b).to_string())).collect::<Vec<_>>(),
             "damage": case.damage,
             "per_line": trace.execs.iter().map(|e| format!("L{} {:?} {}", e.line, e.obs.out, e.obs.result.short())).collect::<Vec<_>>(),
         });
